@@ -513,3 +513,13 @@ def r6(ctx):
     for fld in ('SyncingState.is_fetching_blocks', 'SyncingState.response_to_process'):
         if fld not in seen:
             ctx.bad('R6', 'upgrade-writes:' + fld, post, 'the transient field `%s` is no longer reset on the upgrade path' % fld)
+
+
+# plumbing between the interface and the analysed functions (rules/plumbing.py)
+_run_before_plumbing = run
+
+
+def run(ctx):
+    _run_before_plumbing(ctx)
+    from rules import plumbing
+    plumbing.set_config_same_name(ctx, 'R4')
